@@ -68,6 +68,7 @@ var frags = map[string]frag{
 	"ptr":      {src: "Fptr *int", dst: "Fptr *int"},
 	"npath":    {src: "Pn *EN", dst: "Fnp int", notes: []string{":map Pn.X Fnp"}, scalars: []string{"Fnp:int"}},
 	"sibpfx":   {src: "Fsp EN\n\tFspQ vrt.VP", dst: "Fsp EN\n\tFspQ vrt.VP", notes: []string{":literal Fsp.X 42"}, scalars: []string{"Fsp.X:int", "Fsp.Y:string", "FspQ.Pub:int"}},
+	"twin":     {src: "Ftwa EN3\n\tFtwb EN3", dst: "Ftwa EN3\n\tFtwb EN3", notes: []string{":literal Ftwb.In.X 42", ":skip Ftwb.In.Y"}, scalars: []string{"Ftwa.In.X:int", "Ftwa.In.Y:string", "Ftwa.K:int", "Ftwb.In.X:int", "Ftwb.In.Y:string", "Ftwb.K:int"}},
 	"skipci":   {src: "Fskipci int", dst: "Fskipci int", notes: []string{":skip fskipci", ":case:off"}, scalars: []string{"Fskipci:int"}},
 	"skip":     {src: "Fskip int", dst: "Fskip int", notes: []string{":skip Fskip"}, scalars: []string{"Fskip:int"}},
 	"nomatch":  {dst: "Fnomatch int", scalars: []string{"Fnomatch:int"}},
